@@ -194,5 +194,35 @@ PROPS["C01"] = {
     "technique": "Lean 4 proof over a phase-level oracle model (crash = prefix) + environment lemma + differential check and ground-truth promotion monitor on fault-injected real runs",
 }
 
+PROPS["C11"] = {
+    "lean": ["MysyncProofs.C11"],
+    "go": [("internal/app", "^TestVerifC11$"), ("internal/app", "^TestVerifC01$")],
+    "level": "proof",
+    "components": ["MysyncModel/App/Recovery.lean (checkRecovery incl. the stuck-commit timer, isSlavePermanentlyLost, SetRecovery write order, stale-master repair)",
+                   "MysyncModel/App/Switchover.lean (marking before promotion)", "MysyncModel/App/ActiveNodes.lean (exclusion of marked hosts from the list)", "MysyncModel/GtidParse.lean, Gtid.lean"],
+    "trusted": ["T4 fake MySQL semantics; fake DCS", "T6 GTID text parser modelled"],
+    "rule": "REAL checkRecovery over: marked / not, resetup file, local status {running, stopped, error, not a replica, unreadable} x relation to the master's set {behind, equal, ahead, diverged} x read-only / not / unreadable x stuck commit {no, yes, unreadable} x stuck timer age {0, 30, 59, 60, 61 s} x recorded master {other host, this host, unregistered, absent} x failing master GTID read x failing clear; plus the C01 runs (old master marked before promotion unless confirmed clean by the procedure's own evidence). distinct = distinct record; non-trivial = an action was taken",
+    "assumptions": [],
+    "min_lines": 4000,
+    "level_text": "Theorems for all inputs: old master marked before promotion whenever not confirmed clean against the most recent position; stale master is fenced, re-pointed and marked in one pass; SetRecovery publishes the list without the host first; marked hosts are never members of a computed list (unless recorded master) and the promoted host is always listed; the mark is cleared only for a read-only replica not in error whose set is contained in the master's (set-level corollary via C13); ahead/error => resetup marker and mark kept; inert when unmarked or resetup pending. Monitors on the real code for the same clauses.",
+    "level_note": "Trusted: Lean kernel; fakes; parser model. The panics the model predicts for an unregistered recorded master / stuck ex-master that is still recorded master are C20's subject.",
+    "technique": "Lean 4 proof over decision models + differential check of the real checkRecovery / performSwitchover",
+}
+PROPS["C19"] = {
+    "lean": ["MysyncProofs.C19"],
+    "go": [("internal/app", "^TestVerifC19$"), ("internal/app", "^TestVerifC01$")],
+    "level": "proof",
+    "components": ["MysyncModel/App/Optimization.lean (Syncer.Sync: classification, disableNodes, balanceToSingleNode, syncNodeOptions as a procedure with failure oracle over a registry+settings world; Controller.DisableAll; isOptimizedDuringWaiting)",
+                   "MysyncModel/Generated/ReplSettings.lean (Equal, CanBeOptimized regenerated from node.go)"],
+    "trusted": ["T4 fake MySQL semantics of the two durability variables; fake DCS registry", "T2 translator for ReplicationSettings.Equal / CanBeOptimized",
+                "observer c19trace (statement pairs -> restore / relax)"],
+    "rule": "1-3 consecutive REAL Syncer.Sync calls over registries of 0-7 entries (five replicas, the master itself, a host that is no longer a cluster host) x status new/enabled x lag {unknown, 0, 59, 60, 119, 120, 500} x settings equal / relaxed x master with non-default settings x view without an entry x one failing call {either SET, settings read, registry delete}; plus every promotion of the C01 runs (ground-truth settings and registry when read_only=0 arrives). distinct = distinct record; non-trivial = at least one call",
+    "assumptions": ["the view handed to Sync agrees with the servers (hypothesis Consistent)"],
+    "min_lines": 2500,
+    "level_text": "Theorems: at most one registered host differs from the master's settings after a fault-free sync; drop only after restore (any failing call, any prefix); failing restore drops nothing; lost / converged hosts are restored and dropped; at most one host relaxed per sync; DisableAll restores then drops and is complete; Wait's test returns at once unless status=enabled. The switchover clause was FALSE on the pinned tree (replica promoted relaxed and registered; reproduced 31/1500 runs) and was repaired by a fix: commit; it is now enforced by the promotion monitor.",
+    "level_note": "Trusted: Lean kernel; fakes; observer; translator. The goroutine race of the speed-up phase itself is runtime behaviour: the fix joins the goroutine, the monitor checks the outcome on real concurrent runs in virtual time.",
+    "technique": "Lean 4 proof over a procedure model with failure oracle + differential check of the real Syncer; ground-truth promotion monitor",
+}
+
 _todo = "machinery for this property is not built yet in this round; planned per DESIGN.md §7/§10 (no claim is made until its check exists)"
 NOT_APPLICABLE = {("C%02d" % i): _todo for i in range(1, 21)}
